@@ -21,7 +21,7 @@ VARS = ('a', 'b', 'c', 'd')
 def spec_groups(n, single=False):
     from fjv import stlspec
     specs = stlspec.hex1_specs() if single else stlspec.hex_specs(n)
-    heavy = {'mul', 'div', 'idiv0', 'idiv1', 'idiv2', 'idiv_badopt', 'add_mul'}
+    heavy = {'mul', 'mul_square', 'div', 'idiv0', 'idiv1', 'idiv2', 'idiv_badopt', 'add_mul'}
     heavy |= {s.name for s in specs if '_q' in s.name and '_r' in s.name}  # in-place forms
     light = [s for s in specs if s.name not in heavy]
     groups = [light[i::4] for i in range(4)]
